@@ -48,7 +48,8 @@ def digests(ids: List[str], runs: int, jobs: int, seed: int) -> Dict[str, List[s
         spec = checks.get_spec(cid)
         per_batch = max(1, runs // len(spec["batches"]))
         for b in spec["batches"]:
-            for r in range(per_batch):
+            # never more than the quick tier runs of a batch (the heavy batches have one run there)
+            for r in range(min(per_batch, max(1, b["runs"]["quick"])) if b["runs"]["quick"] else 0):
                 tasks.append((cid, b["name"], r, seed))
     out: Dict[str, List[str]] = {}
     with driver.SimHost() as host:
